@@ -421,6 +421,17 @@ func Run(t *testing.T, codecs []*Codec) {
 				cs.Parent = parent
 				out.Emit(cs)
 			}
+			// re-framed variants: wherever a 1-, 2- or 3-byte big-endian field declares exactly
+			// the number of bytes that follow it up to the end of the message (an outer length
+			// prefix), the tail is cut or extended by a few bytes AND the prefix is patched to the
+			// new tail length - a self-consistent frame around a ragged body (a vector of
+			// fixed-size elements whose byte length is no multiple of the element size, a last
+			// element cut short), which plain truncation and trailing garbage never produce
+			for _, fr := range reframed(rnd, enc) {
+				cs := observe(c, "reframe", fr)
+				cs.Parent = parent
+				out.Emit(cs)
+			}
 		}
 		// (c)
 		for i := 0; i < nRand; i++ {
@@ -536,4 +547,45 @@ func replay(out *Out, codecs []*Codec, spec string) {
 		cs.Parent = rp.Parent
 		out.Emit(cs)
 	}
+}
+
+
+// reframed returns variants of enc in which an outer length prefix was found and the tail it
+// covers was shortened / extended with the prefix kept consistent.
+func reframed(rnd *Rand, enc []byte) [][]byte {
+	out := [][]byte{}
+	for w := 1; w <= 3; w++ {
+		for k := 0; k+w <= len(enc) && k < 48; k++ {
+			val := 0
+			for i := 0; i < w; i++ {
+				val = val<<8 | int(enc[k+i])
+			}
+			tail := len(enc) - k - w
+			if val != tail {
+				continue
+			}
+			for _, delta := range []int{-1, -2, -3, -7, -8, -9, -15, 1, 2, 3, 8, 15} {
+				nt := tail + delta
+				if nt < 0 || nt >= 1<<(8*w) {
+					continue
+				}
+				v := append([]byte{}, enc[:k+w]...)
+				if delta < 0 {
+					v = append(v, enc[k+w:k+w+nt]...)
+				} else {
+					v = append(v, enc[k+w:]...)
+					v = append(v, rnd.Bytes(delta)...)
+				}
+				for i := 0; i < w; i++ {
+					v[k+i] = byte(nt >> (8 * (w - 1 - i)))
+				}
+				out = append(out, v)
+			}
+			if len(out) >= 36 {
+				return out
+			}
+		}
+	}
+
+	return out
 }
